@@ -1087,6 +1087,12 @@ def scen_stream(S, rng, fam, kind, M, nblocks, p):
         if fam == "f": S.f_load(sid, da, dn, slow=rng.random() < 0.4)
         else: S.h_load(sid, da, dn)
     acc = rng.choice(ACCELS)
+    def early_save():
+        # LZ4_saveDict / LZ4_saveDictHC at ANY point: before the first block, right after a reset (F17)
+        if rng.random() < p.get("psave_early", 0.15):
+            (S.f_save if fam == "f" else S.h_save)(sid, S.scratch_safe(), rng.choice([K64, K64, 1000, 4, 0]))
+            st["save_before_first_block"] += 1
+    early_save()
     inject_at = rng.randrange(1, max(2, nblocks)) if rng.random() < p.get("pinject", 0.0) else -1
     i = 0
     while i < nblocks:
@@ -1126,6 +1132,7 @@ def scen_stream(S, rng, fam, kind, M, nblocks, p):
             st["failed_then_reset"] += 1
             if fam == "f": S.f_reset_fast(sid)
             else: S.h_reset_fast(sid, rng.choice(levels))
+            early_save()
             continue
         geo.after(sid, n)
 
@@ -1783,3 +1790,26 @@ def scen_attach_abandoned(S, rng, fam, p):
             st["abandoned_session_blocks_h"] += 1
             S.h_continue(WS, area + pos, n, bound(n))
             pos += n + rng.choice([0, 0, 64])
+
+
+def corpus_savedict_fresh(S, rng):
+    """F17 (fixed in /repo): LZ4_saveDictHC on a stream that has not started (fresh, or fully re-initialised), then a block.
+    Before the fix the context was anchored at index 0 and the block came out with an offset-0 match (silent corruption,
+    every HC level).  Judged by the round-trip oracles, so levels >= 3 are guarded too; levels 1-2 also by the model."""
+    src = (b"abcdefghijklmnopqrstuvwxyz0123456789" * 30)[:1000]
+    a = S.arena.alloc(len(src)); S.write(a, src)
+    safe = S.arena.alloc(K64)
+    for i, lvl in enumerate((1, 2, 3, 9, 12)):
+        S.h_new(i, lvl)
+        r = S.h_save(i, safe, K64)
+        if r != 0:
+            S.fail("prop_fail", "LZ4_saveDictHC on a fresh stream returned %d" % r)
+        S.h_continue(i, a, len(src), 2000)
+        # same after LZ4_resetStreamHC_fast and after a failed call (dirty => full re-initialisation)
+        S.h_reset_fast(i, lvl)
+        S.h_save(i, safe, 4096)
+        S.h_continue(i, a, 500, 4)             # fails: dirty
+        S.h_reset_fast(i, lvl)
+        S.h_save(i, safe, K64)
+        S.h_continue(i, a, len(src), bound(len(src)))
+    S.res["stats"]["corpus_F17"] += 1
